@@ -9,6 +9,7 @@
 
 //@ raw
 // ---- environment: opaque spans, tokens from one file -------------------------------------
+#[verifier::external_body]
 pub struct Span { verif_opaque: u8 }
 impl Span {
     /// the file a span points into
@@ -26,6 +27,7 @@ impl Clone for Span {
     #[verifier::external_body]
     fn clone(&self) -> (r: Span) ensures r.file() == self.file() { unimplemented!() }
 }
+#[verifier::external_body]
 pub struct ParseError { verif_opaque: u8 }
 impl ParseError {
     #[verifier::external_body]
@@ -55,6 +57,7 @@ type TokenRes = core::result::Result<Token, String>;
 //@ raw
 /// the token stream: every token carries a span of the file being parsed (the lexer is created for
 /// one file); nothing else is assumed about it - any tokens, in any order, of any number
+#[verifier::external_body]
 pub struct VerifTokens { verif_opaque: u8 }
 impl VerifTokens {
     pub uninterp spec fn file(&self) -> int;
